@@ -307,6 +307,17 @@ type ledger struct {
 	sinceMajor int
 	maxSince   int
 	stuck      atomic.Bool
+	// gfault: the first Grad call writes gval into component 0 (gkind == faultFirst).
+	gkind int
+	gval  float64
+	// first observations, for the documented checks on the starting location
+	firstF     float64
+	haveFirstF bool
+	firstFx    uint64 // hash of the point of the first Func call
+	firstG     []float64
+	firstGx    uint64
+	haveFirstG bool
+
 	// ring of the last evaluations (x[0], f) for the witness of a stuck run.
 	ring  [6][2]float64
 	ringN int
@@ -429,6 +440,9 @@ func (l *ledger) Func(x []float64) float64 {
 			v = l.fault.val
 		}
 	}
+	if !l.haveFirstF {
+		l.haveFirstF, l.firstF, l.firstFx = true, v, hashBits(x)
+	}
 	l.addVal(hashBits(x), math.Float64bits(v))
 	l.ring[l.ringN%len(l.ring)] = [2]float64{x[0], v}
 	l.ringN++
@@ -448,9 +462,15 @@ func (l *ledger) Grad(g, x []float64) {
 	defer l.leave()
 	l.obj.g(g, x)
 	k := hashBits(x)
-	hb := hashBits(g)
 	l.mu.Lock()
 	l.nG++
+	if l.gkind == faultFirst && l.nG == 1 {
+		g[0] = l.gval
+	}
+	if !l.haveFirstG {
+		l.haveFirstG, l.firstG, l.firstGx = true, append([]float64(nil), g...), k
+	}
+	hb := hashBits(g)
 	l.gvals[k] = hb
 	l.tick()
 	l.mu.Unlock()
